@@ -370,7 +370,7 @@ def check(prop, tier, seed):
                             model_mismatches=len(b_mis), direct_oracle_checks=meta.get("direct_checks", 0),
                             oracle_failures=len(c_fail), known_findings_reproduced=sorted(known_hit)),
         input_distribution=meta.get("stats", {}),
-        extractor=dict(ok=eok, failures=efails), source_changes=A.get("source_changes"), panic_sites=A.get("panic_sites"), field_orders=A.get("field_orders"),
+        extractor=dict(ok=eok, failures=efails, notes=A.get("translator_notes", [])), source_changes=A.get("source_changes"), panic_sites=A.get("panic_sites"), field_orders=A.get("field_orders"),
         exhaustive=bool(meta.get("exhaustive", False)),
         explanation=P["level_text"],
     )
